@@ -41,6 +41,14 @@ def main():
       xml = xml.replace(' anchor="0 0 0"/></equality>', "/></equality>")
     if sleep:
       xml = xml.replace("<option ", '<option><flag sleep="enable"/></option>\n  <option ')
+    if c == 1:
+      # regression (fix 077b3f5): flexes only, NO geoms — every contact is a flex contact with geom ids -1, which sensor_acc's tactile
+      # preprocessing used to take as indices into geom_bodyid (segfault)
+      sleep, jac = False, ""
+      xml = ('<mujoco><option timestep="0.002"/><worldbody>'
+             '<flexcomp name="top" type="grid" count="3 3 1" spacing=".04 .04 .04" pos="0 0 .027" radius=".01" dim="2" mass=".2"><contact selfcollide="none"/></flexcomp>'
+             '<flexcomp name="bot" type="grid" count="3 3 1" spacing=".04 .04 .04" pos="0 0 .009" radius=".01" dim="2" mass=".2"><contact selfcollide="none"/></flexcomp>'
+             '</worldbody></mujoco>')
     try:
       mjm = mujoco.MjModel.from_xml_string(xml)
     except ValueError:
